@@ -1,5 +1,4 @@
 use std::fs;
-use std::io::Write;
 use std::path::{Path, PathBuf};
 use std::sync::atomic::{AtomicBool, Ordering};
 use std::time::{Duration, SystemTime};
@@ -7,7 +6,7 @@ use std::time::{Duration, SystemTime};
 use sha2::{Digest, Sha256};
 
 use crate::error::{Result, SlocGuardError};
-use crate::state::detect_state_dir;
+use crate::state::{atomic_write_with_lock, detect_state_dir};
 
 const REMOTE_CACHE_SUBDIR: &str = "remote-configs";
 const CACHE_TTL_SECS: u64 = 3600; // 1 hour
@@ -210,11 +209,9 @@ fn write_to_cache(url: &str, content: &str, project_root: Option<&Path>) -> Opti
 
     #[cfg(feature = "verif-hooks")]
     crate::verif_hooks::point("rc:before_create");
-    // Write content to cache file
-    let mut file = fs::File::create(&cache_path).ok()?;
-    #[cfg(feature = "verif-hooks")]
-    crate::verif_hooks::point("rc:after_create");
-    file.write_all(content.as_bytes()).ok()?;
+    // Write through a temp file + rename: an interrupted write must never leave a truncated
+    // entry with a fresh mtime that a later run (without `extends_sha256`) would trust.
+    atomic_write_with_lock(&cache_path, content.as_bytes(), "remote config cache").ok()?;
     #[cfg(feature = "verif-hooks")]
     crate::verif_hooks::point("rc:after_write");
 
